@@ -192,12 +192,14 @@ class _Canon(ast.NodeTransformer):
             if in_loop and rest and isinstance(st, ast.If) and not st.orelse and self._jumps(st.body, ast.Continue):
                 st.body = st.body[:-1] or [ast.copy_location(ast.Pass(), st)]
                 st.orelse = self._guards(rest, in_loop)
+                self._positive(st)
                 out = out[:i + 1]
                 break
             # guard clause that leaves (return / raise / break): the rest is its else branch
             if rest and isinstance(st, ast.If) and not st.orelse and self._jumps(st.body, (ast.Return, ast.Raise, ast.Break)) \
                     and not (isinstance(st.body[-1], ast.Break) and not in_loop):
                 st.orelse = self._guards(rest, in_loop)
+                self._positive(st)
                 out = out[:i + 1]
                 break
             if in_loop and rest and isinstance(st, ast.Try) and not st.orelse and not st.finalbody and st.handlers \
@@ -262,11 +264,25 @@ class _Canon(ast.NodeTransformer):
 
     visit_AsyncFunctionDef = visit_FunctionDef
 
+    _NEG = {ast.NotIn: ast.In, ast.IsNot: ast.Is, ast.NotEq: ast.Eq}
+
+    def _positive(self, node):
+        """if/else with a negative test -> positive test, branches swapped (plain if/else only)"""
+        if node.orelse and not (len(node.orelse) == 1 and isinstance(node.orelse[0], ast.If)):
+            t = node.test
+            if isinstance(t, ast.UnaryOp) and isinstance(t.op, ast.Not):
+                node.test, node.body, node.orelse = t.operand, node.orelse, node.body
+            elif isinstance(t, ast.Compare) and len(t.ops) == 1 and type(t.ops[0]) in self._NEG:
+                t.ops = [self._NEG[type(t.ops[0])]()]
+                node.body, node.orelse = node.orelse, node.body
+        return node
+
     def visit_If(self, node):
         self.generic_visit(node)
         node.body = self._guards(node.body, self._in_loop(node))
         if node.orelse:
             node.orelse = self._guards(node.orelse, self._in_loop(node))
+        self._positive(node)
         if node.orelse and not (len(node.orelse) == 1 and isinstance(node.orelse[0], ast.If)) \
                 and isinstance(node.test, ast.UnaryOp) and isinstance(node.test.op, ast.Not):
             node.test, node.body, node.orelse = node.test.operand, node.orelse, node.body
